@@ -89,22 +89,11 @@ def run(ctx, rep):
     ng = F.fn("compiler::ast::number::Number::negate")
     if ng is None:
         raise AnchorMissing("Number::negate")
+    rt_keeps = {}
     for k in ("Integer", "BigInt", "Float", "Byte"):
-        it = Interp(F, models=dict(tables.MODELS), max_depth=2, max_paths=32)
-        outs = it.run(ng, [T.num_value(k, "x")])
-        kinds = set()
-        for o in outs:
-            v = o.value
-            if o.kind == "return" and isinstance(v, Variant) and v.adt == "core::option::Option":
-                kinds.add(v.fields[0].name if v.name == "Some" and isinstance(v.fields[0], Variant) else "None")
-            else:
-                kinds.add("?%s" % (o,))
         rt = T.runtime("negate", NUM_TO_PRIM[k], None)
-        rt_ok = any(x[0] == "Ok" for x in rt)
-        want = {k} if rt_ok else {"None"}
-        rep.ob("C06.negate", "-<%s literal> folds to the same kind the interpreter produces" % k.lower(), "ok" if kinds == want else "violated",
-               "folder yields %s; the interpreter's negate %s" % (sorted(kinds), "keeps the kind" if rt_ok else "rejects it"), ng.span, fn=ng.path,
-               key="C06.negate|%s" % k.lower())
+        rt_keeps[k] = any(x[0] == "Ok" for x in rt)
+    negate_on_texts(F, rep, rt_keeps)
 
     # ---- operand order -----------------------------------------------------------------------------------
     from props import _operands
@@ -224,7 +213,6 @@ def run(ctx, rep):
                 rep.ob("C06.failure-equivalence", "folder %s: float division #%d is guarded by a zero test" % (op, i), verdict, str(info), c.span,
                        fn=g.path, key="C06.failure-equivalence|%s|fpzero#%d" % (op, i))
     fold_width(F, rep)
-    negate_is_numeric(F, rep)
 
 
 def _leaves(fn, local, through, depth=0, seen=None):
@@ -294,9 +282,12 @@ def fold_width(F, rep):
     rep.floor("C06.fold-width result sites of the folder's operators", n, 150)
 
 
-def negate_is_numeric(F, rep):
-    """The folder keeps numbers as text.  Number::negate, evaluated abstractly on the texts "5" and "-5" of each kind it accepts, must return the
-    text of the negated number: a result that is not a number's text (`--5`) is emitted as `make_int --5`, which the interpreter refuses."""
+def negate_on_texts(F, rep, rt_keeps):
+    """The folder keeps numbers as text.  Number::negate is evaluated abstractly on concrete texts of each kind (small, negative, the ends of i32 and
+    beyond): (kind) the result has the kind the interpreter's negation gives - the kind of the operand - or the folder declines (None: the
+    run-time negation is used); the one exception is the bigint text 2147483648, whose negation spells the int literal `-2147483648` (a
+    literal is lexed without its sign); an int whose negation is not an int (`-(-2147483648)`) must be declined, not labelled int;
+    (text) the result is the text of the negated number: `--5` or `make_int -9999999999` is refused by the interpreter."""
     import absint
     from absint import Interp, Variant, Str
     N = "compiler::ast::number::Number"
@@ -340,13 +331,23 @@ def negate_is_numeric(F, rep):
     models.update({"core::ops::arith::Add::add": s_add, "alloc::borrow::ToOwned::to_owned": s_id, "alloc::string::ToString::to_string": s_id,
                    "core::clone::Clone::clone": s_id, "core::convert::From::from": s_id, "core::str::<impl str>::strip_prefix": strip_prefix,
                    "core::str::<impl str>::starts_with": starts_with, "alloc::string::String::as_str": s_id, "core::ops::deref::Deref::deref": s_id})
-    bad, undec, n = [], [], 0
-    for kind in ("Integer", "BigInt", "Float"):
+    CASES = {
+        "Integer": [("5", "Integer", "-5"), ("-5", "Integer", "5"), ("2147483647", "Integer", "-2147483647"), ("-2147483647", "Integer", "2147483647"),
+                    ("-2147483648", None, None), ("0", "Integer", "-0")],
+        "BigInt": [("5", "BigInt", "-5"), ("-5", "BigInt", "5"), ("9999999999", "BigInt", "-9999999999"), ("-9999999999", "BigInt", "9999999999"),
+                   ("2147483649", "BigInt", "-2147483649"), ("2147483648", "Integer", "-2147483648")],
+        "Float": [("5.0", "Float", "-5.0"), ("-5.0", "Float", "5.0")],
+        "Byte": [("0b101", None, None)],
+    }
+    n = 0
+    bad_text, undec = [], []
+    for kind, cases in CASES.items():
         if kind not in names:
             continue
-        for txt, want in (("5", "-5"), ("-5", "5")):
-            if kind == "Float":
-                txt, want = txt + ".0", want + ".0"
+        bad_kind = []
+        for txt, wkind, wtxt in cases:
+            if not rt_keeps.get(kind):
+                wkind, wtxt = None, None            # the interpreter rejects the negation of this kind: the folder has to decline
             it = Interp(F, models=models, max_depth=5, max_paths=32)
             outs = it.run(g, [Variant(N, names.index(kind), kind, [Str(txt)])])
             n += 1
@@ -354,16 +355,27 @@ def negate_is_numeric(F, rep):
             for o in outs:
                 v = o.value
                 if o.kind == "return" and isinstance(v, Variant) and v.name == "Some" and isinstance(v.fields[0], Variant) and v.fields[0].fields and isinstance(v.fields[0].fields[0], Str):
-                    got.add(v.fields[0].fields[0].s)
+                    got.add((v.fields[0].name, v.fields[0].fields[0].s))
                 elif o.kind == "return" and isinstance(v, Variant) and v.name == "None":
-                    got.add(None)
+                    got.add((None, None))
                 else:
                     got.add("?")
-            if "?" in got or it.exhausted or not got:
-                undec.append("%s(%s)" % (kind, txt))
-            elif got == {None}:
-                continue         # refuses to fold: the run-time negation is used
-            elif got != {want} and not (got == {want.lstrip("+")}):
-                bad.append("-(%s literal `%s`) folds to the text %s, expected `%s`" % (kind.lower(), txt, sorted(repr(x) for x in got), want))
-    rep.ob("C06.negate", "the folder's unary minus returns the text of the negated number (also for a negative operand)", "violated" if bad else ("undecided" if undec else "ok"),
-           "; ".join(bad) or ("not evaluated: %s" % undec if undec else "%d evaluations" % n), g.span, fn=g.path, key="C06.negate|text")
+            if "?" in got or it.exhausted or len(got) != 1:
+                undec.append("%s(%s) -> %s" % (kind, txt, sorted(map(str, got))))
+                continue
+            gk, gt = next(iter(got))
+            if gk is None:
+                continue                              # declined: the run-time negation is used
+            if wkind is None:
+                bad_kind.append("-(%s `%s`) folds to %s(`%s`), but the interpreter's negation fails on it" % (kind.lower(), txt, gk, gt))
+                continue
+            if gk != wkind:
+                bad_kind.append("-(%s `%s`) folds to a %s, the interpreter gives a %s" % (kind.lower(), txt, gk.lower(), wkind.lower()))
+            if gt != wtxt and not (gt == wtxt.replace("-0", "0")):
+                bad_text.append("-(%s `%s`) folds to the text `%s`, expected `%s`" % (kind.lower(), txt, gt, wtxt))
+        rep.ob("C06.negate", "-<%s literal> folds to the kind the interpreter produces, or is left to it" % kind.lower(), "violated" if bad_kind else "ok",
+               "; ".join(bad_kind[:4]), g.span, fn=g.path, key="C06.negate|%s" % kind.lower())
+    rep.ob("C06.negate", "the folder's unary minus returns the text of the negated number (also for a negative operand)",
+           "violated" if bad_text else ("undecided" if undec else "ok"),
+           "; ".join(bad_text[:4]) or ("not evaluated: %s" % undec[:4] if undec else "%d evaluations" % n), g.span, fn=g.path, key="C06.negate|text")
+    rep.floor("C06.negate evaluations", n, 12)
